@@ -16,6 +16,7 @@
  * Includes
  **************************************/
 
+#include "EbVerifHooks.h"
 #include "EbDefinitions.h"
 #include "EbPictureBufferDesc.h"
 
@@ -848,6 +849,9 @@ void dec_av1_loop_filter_frame_mt(EbDecHandle *dec_handle, EbPictureBufferDesc *
             dec_timer_start(&timer);
 #endif
             while ((!start_lf[0]) || (!start_lf[1]) || (!start_lf[2])) {
+#ifdef SVT_AV1_VERIF
+                SVT_VERIF_SPIN();
+#endif
                 start_lf[0] = 1;
                 start_lf[1] = 1;
                 start_lf[2] = 1;
@@ -1003,7 +1007,11 @@ void svt_cdef_frame_mt(EbDecHandle *dec_handle_ptr, DecThreadCtxt *thread_ctxt) 
             volatile int32_t *start_cdef =
                 (volatile int32_t *)&dec_mt_frame_data->lf_row_map[sb_row + offset];
             while (!*start_cdef)
+#ifdef SVT_AV1_VERIF
+                SVT_VERIF_SPIN();
+#else
                 ;
+#endif
             assert(*start_cdef == 1);
 #if MT_WAIT_PROFILE
             dec_display_timer("CWLF", &timer, th_cnt, fp);
@@ -1061,7 +1069,11 @@ void svt_cdef_frame_mt(EbDecHandle *dec_handle_ptr, DecThreadCtxt *thread_ctxt) 
     if (do_upscale) {
         volatile uint32_t *num_threads_cdefed = &dec_mt_frame_data->num_threads_cdefed;
         while (*num_threads_cdefed != dec_handle_ptr->dec_config.threads)
+#ifdef SVT_AV1_VERIF
+            SVT_VERIF_SPIN();
+#else
             ;
+#endif
     }
 }
 
@@ -1229,7 +1241,11 @@ void dec_av1_loop_restoration_filter_frame_mt(EbDecHandle *dec_handle, DecThread
             volatile int32_t *start_lr =
                 (volatile int32_t *)&dec_mt_frame_data->cdef_completed_for_row_map[sb_row];
             while (!*start_lr)
+#ifdef SVT_AV1_VERIF
+                SVT_VERIF_SPIN();
+#else
                 ;
+#endif
 
             LrCtxt *lr_ctxt = (LrCtxt *)dec_handle->pv_lr_ctxt;
 
@@ -1308,7 +1324,11 @@ void dec_av1_loop_restoration_filter_frame_mt(EbDecHandle *dec_handle, DecThread
     volatile uint32_t *num_threads_lred = &dec_mt_frame_data->num_threads_lred;
     while (*num_threads_lred != dec_handle->dec_config.threads &&
            EB_FALSE == dec_mt_frame_data->end_flag)
+#ifdef SVT_AV1_VERIF
+        SVT_VERIF_SPIN();
+#else
         ;
+#endif
 }
 
 void *dec_all_stage_kernel(void *input_ptr) {
@@ -1319,7 +1339,11 @@ void *dec_all_stage_kernel(void *input_ptr) {
         &dec_handle_ptr->main_frame_buf.cur_frame_bufs[0].dec_mt_frame_data;
     volatile EbBool *start_thread = (volatile EbBool *)&dec_handle_ptr->start_thread_process;
     while (*start_thread == EB_FALSE)
+#ifdef SVT_AV1_VERIF
+        SVT_VERIF_SPIN();
+#else
         ;
+#endif
 
     while (1) {
         /* Motion Field Projection */
